@@ -204,6 +204,13 @@ class Mirror:
         f = getattr(self, "_" + k)
         return f(*[tuple(x) if i == 0 else x for i, x in enumerate(op[1:])])
 
+    def _NewSpaceBad(self, parent, name, bases):
+        """new_space(..., formula=<not a function>): refused for the reason a plain new_space would be refused, else
+        because of the formula; nothing changes.  Not an operation of Names/Model.v: it is left out of the Coq term
+        (a refused operation changes nothing there either) and judged by the (P) clause 'rejected => unchanged'."""
+        code, _ = self._NewSpace(parent, name, bases)
+        return (BADFORMULA if code == ACCEPTED else code), None
+
     def _new(self):
         m = self.clone()
         m.touch()
@@ -611,6 +618,9 @@ class Gen:
             bases = [list(r.choice(sps)) for _ in range(nb)]
             if len(sps) >= self.maxspaces and r.random() < 0.8:
                 return self.draw(mir)
+            if r.random() < 0.12:
+                # a creation that must be REFUSED: malformed parameter formula ((P)-only operation, see NewSpaceBad)
+                return ["NewSpaceBad", parent, self.name(), bases]
             return ["NewSpace", parent, self.name(), bases]
         if x < 0.32:
             nm = None if r.random() < 0.08 else self.name()
@@ -1105,7 +1115,8 @@ def split_path(p, o):
 
 
 def cterm(ops, r):
-    steps = clist([ctuple([cop(op), cnat(st["out"]), cobs(st["obs"])]) for op, st in zip(ops, r["steps"])])
+    steps = clist([ctuple([cop(op), cnat(st["out"]), cobs(st["obs"])]) for op, st in zip(ops, r["steps"])
+                   if op[0] != "NewSpaceBad"])
     return steps
 
 
